@@ -26,7 +26,8 @@
    answers each call by the stateless exporter on the current fields.  The library's stored WIF text (_wif / _wif_prefix)
    is deliberately NOT part of the model: after fixes/C12-3 (the stored text is dropped when the compressed attribute has
    changed) it never shows.  Faithful oddities kept: as_hex(private=True) returns private_byte (bytes, not text);
-   HDKey.wif(child_index=c) stores c in the object; HDKey.wif(multisig=False) cannot override a multisig key;
+   HDKey.wif(child_index=c) uses c for that one serialisation only (since fixes/C03-8; the code before stored c in the object:
+   [sop_step_pre_c03_8]); HDKey.wif(multisig=False) cannot override a multisig key;
    address(compressed=b) overwrites the compressed attribute but public_byte / public_hex stay as __init__ made them.
 
    After the C04 repairs Key.__init__ refuses a private key whose number is not in 1 .. n-1 ([secret_in_range], n from
@@ -577,8 +578,8 @@ Definition lib_wif_with (k : keymeta) (prefix : option bytes) : res bytes :=
          end.
 
 (* the effective arguments of HDKey.wif(is_private, child_index, prefix, witness_type, multisig):
-   "if not witness_type" / "if not multisig" / "if not prefix" / "if child_index" — None, '' , False, b'' and 0 all
-   mean "take the object's own value" *)
+   "if not witness_type" / "if not multisig" / "if not prefix" — None, '' , False and b'' mean "take the object's own
+   value"; "if child_index is None" — only None means the object's own child number, 0 is honoured (fixes/C03-8) *)
 Definition xk_want (isp : option bool) : bool := match isp with Some true => true | _ => false end.
 Definition xk_witness (k : keymeta) (wt : option str) : str :=
   let own := if String.eqb (km_witness k) "" then default_witness else km_witness k in
@@ -586,7 +587,7 @@ Definition xk_witness (k : keymeta) (wt : option str) : str :=
 Definition xk_multisig (k : keymeta) (ms : option bool) : bool :=
   match ms with Some true => true | _ => km_multisig k end.
 Definition xk_child (k : keymeta) (child : option Z) : Z :=
-  match child with Some c => if c =? 0 then km_child k else c | None => km_child k end.
+  match child with Some c => c | None => km_child k end.
 
 (* the four version bytes: the explicit ones, else Network.wif_prefix.  An explicit prefix that is not four bytes or
    starts with 00 is not modelled (the text is then padded to 111 characters by change_base) *)
@@ -687,14 +688,22 @@ Definition sop_answer (s : sstate) (op : sop) : sanswer :=
   end.
 
 (* what the call does to the fields: network_change sets the network (when it exists), public() drops the secret,
-   address(compressed=b) sets the compressed attribute, HDKey.wif(child_index=c) with c <> 0 sets child_index once
-   the version bytes are found (before the serialisation, which may still refuse) *)
+   address(compressed=b) sets the compressed attribute.  Every export — HDKey.wif(child_index=c) included, since
+   fixes/C03-8 — leaves the fields alone *)
 Definition sop_step (s : sstate) (op : sop) : sstate :=
   let k := ss_km s in
   match op with
   | SNet name => if network_defined name then {| ss_km := km_set_network k name; ss_compressed := ss_compressed s |} else s
   | SPublic => {| ss_km := km_strip_private k; ss_compressed := ss_compressed s |}
   | SAddr (Some b) => {| ss_km := k; ss_compressed := b |}
+  | _ => s
+  end.
+
+(* the code before fixes/C03-8: "if child_index: self.child_index = child_index" — HDKey.wif(child_index=c) with c <> 0
+   stored c in the object once the version bytes were found (before the serialisation, which could still refuse) *)
+Definition sop_step_pre_c03_8 (s : sstate) (op : sop) : sstate :=
+  let k := ss_km s in
+  match op with
   | SXkey isp child prefix wt ms =>
       if negb (km_constructible k) then s else
       match find_network (km_network k) with
@@ -707,7 +716,7 @@ Definition sop_step (s : sstate) (op : sop) : sstate :=
                   | Err _ => s
                   end
       end
-  | _ => s
+  | _ => sop_step s op
   end.
 
 (* a session: the answers of the calls in order, each on the fields as the earlier calls left them *)
